@@ -37,6 +37,7 @@ class Driver:
         self.sent_objs = []  # the objects the writer serialised (canonical), same order
         self.handled = []  # jdump of each dict given to LangServer.handle (canonical)
         self.versions = {}  # uri -> last document version sent
+        self.waiting_after_burst = False
         self.server_requests = []  # requests the server sent to the client: {"id", "method", "due"}
         self.replies_sent = 0
         self.msgs_built = 0
@@ -71,9 +72,26 @@ class Driver:
         self.nreads = 0
         self.idle_hooks = []
 
+    def client_would_write(self) -> bool:
+        """would the client's end of the pipe become readable without the server doing anything?
+        Bytes already written and not yet read: yes. End of the schedule (the client closes the
+        pipe): yes. Otherwise a streaming client goes on writing; a client in lock-step waits
+        while a request that it has fully delivered is still unanswered."""
+        self.on_idle()
+        if self.pending or self.eof or self.pos >= len(self.ops):
+            return True
+        if self.pipeline and not self.waiting_after_burst:
+            return True
+        answered = {jdump(o["f"].get("id")) for o in self.out if "method" not in o["f"] and "id" in o["f"]}
+        for obj in self.sent_objs:
+            if isinstance(obj, dict) and "id" in obj and "method" in obj and jdump(obj["id"]) not in answered:
+                return False
+        return True
+
     # ---- inbound side -------------------------------------------------
     def next_bytes(self, maxn: int) -> bytes:
         self.on_idle()
+        sim.VCLOCK["idle"] = 0.0
         if not self.pending and self.plan is not None and self.handled_ops:
             sim.late_races(self.plan, self.world, self.handled_ops[-1])
         while not self.pending:
@@ -176,6 +194,7 @@ class Driver:
         return m
 
     def _build_segment(self):
+        self.waiting_after_burst = False
         while True:
             op = self.ops[self.pos]
             m = self._versioned(op["m"])
@@ -202,6 +221,8 @@ class Driver:
             if not self.pipeline or self.pos >= len(self.ops) or self.ops[self.pos]["k"] != "msg":
                 return
             if op.get("sync"):
+                # end of a burst: the client now waits for the answers before it writes again
+                self.waiting_after_burst = True
                 return
 
     def _client_effects(self, k: int, m: dict):
@@ -430,6 +451,7 @@ def run_schedule(sched: dict, fallback_base: str, repo: str, result_cb) -> None:
         sim.install_audit(repo)
         writer = sim.SimWriter()
         driver = Driver(sched, world, writer)
+        S.driver = driver
         raw = sim.SimRaw(driver)
         driver.plan = plan
         ctx.update(world=world, seams=seams, writer=writer, driver=driver, net=net, plan=plan)
